@@ -31,6 +31,10 @@ CHECKS = {
         text="DTLS 1.0/1.2 client+server over an event-queue datagram network with 1 s doubling resend timers; per-datagram fates keyed by emission index, replays of every kind of captured record during and after the handshake, tagged application datagrams; "
              "fixed plans enumerate all single-drop / single-duplicate handshake schedules per cfg and all arrival orders of short application bursts. Oracles: each datagram delivered at most once and equal to a sent one, established sessions survive replays, "
              "fresh traffic still flows after faults stop, completion within 600 simulated s and 12 timer rounds after the last fault. Two recorded known findings (bumped-epoch final-flight resend)."),
+    "C17": dict(engine="proto+dtls", level="exploration", design="10/C17",
+        technique="deterministic simulation with link-time seal probes: every AEAD seal / CBC record encryption of seeded TLS and DTLS (loss, retransmission, alert, resumption) histories is audited for nonce reuse, sequence monotonicity and IV freshness against the simulated entropy log",
+        text="Probes around psAes*GCM, psChacha20Poly1305Ietf* and psAesEncryptCBC record key digest, nonce, AAD and plaintext digests for every seal of every session; the audit runs over the whole recorded history of each simulated run "
+             "(TLS data/alert/closure/replay/resumption/TLS 1.3 phases; DTLS with drop/dup/delay-driven retransmission of encrypted flights and replays). CBC explicit IVs on the wire must be encryptions of fresh, never reused 16-byte draws of the simulated entropy source."),
 }
 
 NOT_APPLICABLE = [
